@@ -5,7 +5,7 @@ ArgClass(h) == IF h.op = "colander" THEN <<IF h.vars = <<"all">> THEN "all" ELSE
                                            IF h.L = 0 THEN "L0" ELSE "Lfinest">>
                ELSE IF h.op = "combine" THEN <<IF h.src2 \in {"A", "B"} THEN "with-generated" ELSE "with-derived">>
                ELSE <<IF h.kept = <<>> THEN "no-kept" ELSE IF Len(h.kept) = 1 THEN "kept-one" ELSE "kept-all">>
-Sig == [i \in DOMAIN hist |-> <<hist[i].op, ArgClass(hist[i]), IF hist[i].src \in {"A", "B"} THEN "from-generated" ELSE "from-derived">>]
+Sig == [i \in DOMAIN hist |-> <<hist[i].op, ArgClass(hist[i]), IF hist[i].src \in {"A", "B"} THEN "from-generated" ELSE IF hist[i].src = "K" THEN "from-chk2plt" ELSE "from-derived">>]
 Scenario == [prop |-> "C14", sig |-> Sig, hist |-> hist,
              expect |-> [i \in DOMAIN hist |-> disk[hist[i].out]]]
 Emit == Len(hist) = MaxOps => PrintT(ToJson(Scenario))
